@@ -12,6 +12,14 @@ package core
 //	RET <rc> valid=<bool> configured=<coordinators that logged "configuring"> started=<coordinators that logged "starting">
 //	PANIC <kind>            (kind: string | error | zap | other) when a panic escapes core.Start
 //
+// The ApplicationContext that Start is handed is part of the case (token X:<state>, default fresh):
+//
+//	X:fresh    a new context (ConfigurationValid = false)
+//	X:preset   a new context constructed with ConfigurationValid = true (and AppReady = true)
+//	X:reuse    the context an earlier call of Start returned from: the P-prefixed tokens (Ps:, Pl:, PF:, ...) describe
+//	           the configuration of that earlier call; the output line then ends in " pre=<rc>/<ConfigurationValid>"
+//	           of the earlier call, and configured= / started= are those of the SECOND call only
+//
 // Token grammar (tokens separated by blanks, values hex encoded):
 //
 //	cfg <base> <edits>  then any number of
@@ -202,26 +210,71 @@ func vcfgCoordinators(logs *observer.ObservedLogs, msg string) []string {
 	return out
 }
 
+// vcfgSetup puts one configuration in place: the files of the scratch directory and the global viper.
+func vcfgSetup(dir string, toks []string, kp vcfgKeypair) {
+	if err := os.RemoveAll(dir); err != nil {
+		panic(err)
+	}
+	if err := os.MkdirAll(dir, 0o700); err != nil {
+		panic(err)
+	}
+	viper.Reset()
+	vcfgMaterialise(dir, toks, kp)
+	vcfgLoad(dir, toks)
+}
+
+func vcfgClosedExit() chan os.Signal {
+	exit := make(chan os.Signal, 1)
+	close(exit) // a configuration that starts is shut down at once
+	return exit
+}
+
 func vcfgRunCase(scratch string, idx int, line string, kp vcfgKeypair) (result string) {
 	toks := strings.Fields(line)
 	if len(toks) < 3 || toks[0] != "cfg" {
 		return "BADCASE"
 	}
 	dir := filepath.Join(scratch, "c"+strconv.Itoa(idx))
-	if err := os.MkdirAll(dir, 0o700); err != nil {
-		panic(err)
-	}
 	defer os.RemoveAll(dir)
 
-	viper.Reset()
-	vcfgMaterialise(dir, toks[3:], kp)
-	vcfgLoad(dir, toks[3:])
+	ctx := "fresh"
+	var mainToks, preToks []string
+	for _, tk := range toks[3:] {
+		switch {
+		case strings.HasPrefix(tk, "X:"):
+			ctx = tk[2:]
+		case strings.HasPrefix(tk, "P"):
+			preToks = append(preToks, tk[1:])
+		default:
+			mainToks = append(mainToks, tk)
+		}
+	}
 
 	core, logs := observer.New(zapcore.DebugLevel)
 	level := zap.NewAtomicLevelAt(zapcore.DebugLevel)
 	app := &protocol.ApplicationContext{Logger: zap.New(core), LogLevel: &level}
-	exit := make(chan os.Signal, 1)
-	close(exit) // a configuration that starts is shut down at once
+	pre := ""
+	switch ctx {
+	case "fresh":
+	case "preset":
+		app.ConfigurationValid = true
+		app.AppReady = true
+	case "reuse":
+		// an earlier Start on the same context, with its own configuration
+		vcfgSetup(dir, preToks, kp)
+		prc := "PANIC"
+		func() {
+			defer func() { _ = recover() }()
+			prc = strconv.Itoa(Start(app, vcfgClosedExit()))
+		}()
+		pre = fmt.Sprintf(" pre=%s/%v", prc, app.ConfigurationValid)
+		logs.TakeAll()
+	default:
+		return "BADCASE context " + ctx
+	}
+
+	vcfgSetup(dir, mainToks, kp)
+	exit := vcfgClosedExit()
 
 	defer func() {
 		if r := recover(); r != nil {
@@ -240,8 +293,8 @@ func vcfgRunCase(scratch string, idx int, line string, kp vcfgKeypair) (result s
 		}
 	}()
 	rc := Start(app, exit)
-	return fmt.Sprintf("RET %d valid=%v configured=%s started=%s", rc, app.ConfigurationValid,
-		strings.Join(vcfgCoordinators(logs, "configuring"), ","), strings.Join(vcfgCoordinators(logs, "starting"), ","))
+	return fmt.Sprintf("RET %d valid=%v configured=%s started=%s%s", rc, app.ConfigurationValid,
+		strings.Join(vcfgCoordinators(logs, "configuring"), ","), strings.Join(vcfgCoordinators(logs, "starting"), ","), pre)
 }
 
 func TestVerifProbeConfig(t *testing.T) {
